@@ -156,6 +156,34 @@ def run(ctx):
                 res["oracle_failures"].append(dict(clause="fit_returns_fitted_model_or_DataSufficiencyError", family=fam, input=kind, stage=stage,
                                                    detail=f"{exc_name(e)}: {str(e)[:120]}"))
             sigs.add(("variant", kind, fam))
+    # ---------------- (A4) the gate is evaluated on EVERY call: one model object, the same disqualified data object, first with the
+    # override, then without (and with an explicit False) - the second call must raise whatever the first one did
+    dq_daily = DailyBaselineData(synth_daily(n=200), is_electricity_data=True)
+    dq_hourly = HourlyBaselineData(synth_hourly(days=200), is_electricity_data=True)
+    for fam, mk, data in [("daily", lambda: DailyModel(), dq_daily), ("daily_legacy", lambda: DailyModel(model="legacy"), dq_daily),
+                          ("hourly", lambda: HourlyModel(), dq_hourly)]:
+        if not data.disqualification:
+            res["hist"][f"gate_sequence_skipped:{fam}"] = 1
+            continue
+        try:
+            m = mk()
+            m.fit(data, ignore_disqualification=True)
+        except Exception as e:  # noqa
+            res["hist"][f"gate_sequence_first_fit_failed:{fam}:{exc_name(e)}"] = 1
+            continue
+        for label, kw in (("no override", {}), ("ignore_disqualification=False", dict(ignore_disqualification=False))):
+            res["evaluations"] += 1
+            try:
+                m.fit(data, **kw)
+                res["oracle_failures"].append(dict(clause="fit_raises_exactly_when_disqualified", family=fam,
+                                                   sequence=f"fit(data, ignore_disqualification=True) then fit(same data, {label}) on one model object",
+                                                   detail="the second call returned instead of raising DataSufficiencyError"))
+            except DataSufficiencyError:
+                pass
+            except Exception as e:  # noqa
+                res["oracle_failures"].append(dict(clause="fit_returns_fitted_model_or_DataSufficiencyError", family=fam,
+                                                   sequence=f"refit {label}", detail=f"{exc_name(e)}: {str(e)[:100]}"))
+        sigs.add(("gate_sequence", fam))
     # ---------------- (A2) a baseline that IS disqualified, fitted with the override: the model inherits the disqualification, refuses
     # to predict without the override, and still does after storage (real fit path, nothing stubbed)
     from opendsm.eemeter.common.exceptions import DisqualifiedModelError as _DQE
